@@ -115,7 +115,7 @@ auto compact_theta_sketch_parser<dummy>::parse(const void* ptr, size_t size, uin
           if (num_entries == 0) {
               return {true, true, seed_hash, 0, theta_constants::MAX_THETA, nullptr, 64};
           } else {
-              const size_t expected_size_bytes = (preamble_size + num_entries) << 3;
+              const size_t expected_size_bytes = (static_cast<size_t>(preamble_size) + num_entries) << 3;
               check_memory_size(ptr, size, expected_size_bytes, dump_on_error);
               const uint64_t* entries = reinterpret_cast<const uint64_t*>(ptr) + COMPACT_SKETCH_ENTRIES_EXACT_U64;
               return {false, true, seed_hash, num_entries, theta_constants::MAX_THETA, entries, 64};
